@@ -863,6 +863,45 @@ func checkC05(P *Prog, r *Result) {
 	}
 	r.floor("C05/swallow-implies-catch-store", 1)
 
+	// issues-inside-catch-scope: a kind that can hold a catch value arms its context (CanCatch = catch != nil) before
+	// it can raise any failure of its own: on every decision path of its node methods (pipeline entered) no issue is
+	// emitted before the arming store. A failure raised earlier - a conversion done in the method before it enters
+	// the pipeline - escapes the node's own Catch: it is reported and the destination keeps its old value
+	nScope := 0
+	for _, kn := range sortedKeys(R.KindByName) {
+		if P.kindField(R.KindByName[kn], "catch") == nil {
+			continue
+		}
+		for _, fn := range []*ssa.Function{R.Process[kn], R.Validate[kn]} {
+			if fn == nil {
+				continue
+			}
+			nScope++
+			paths, capHit := P.nodePaths(fn)
+			var bad string
+			if capHit {
+				bad = "too many paths to enumerate"
+			}
+			for _, p := range paths {
+				armed := false
+				for _, it := range p.items {
+					if it.kind == "FLAG-"+R.FCanCatch.Name() && it.val == "set" {
+						armed = true
+					}
+					if it.kind == "ISSUE" && !armed && bad == "" {
+						bad = "an issue of the node (" + it.val + ") is emitted at " + P.ipos(it.in) + " before the node's context is armed for its Catch: a catching node reports this failure instead of taking its catch value  [path: " + p.String() + "]"
+					}
+				}
+			}
+			if bad != "" {
+				r.bad("C05/issues-inside-catch-scope", fname(fn), P.pos(fn.Pos()), bad)
+			} else {
+				r.ok("C05/issues-inside-catch-scope", fname(fn), P.pos(fn.Pos()), "every issue the node emits comes after CanCatch = (catch != nil)")
+			}
+		}
+	}
+	r.floor("C05/issues-inside-catch-scope", 4)
+
 	// no-direct-sink
 	nodeFns := map[*ssa.Function]bool{}
 	for _, fn := range P.nodeFuncs() {
